@@ -11,7 +11,7 @@ Template directives (see DESIGN.md 3.2/3.3):
   /*@fn FILE :: IMPL-HEADER-or-"-" :: NAME
   props: C20
   rename: new_name
-  rules: R1 R4
+  rules: R1 R4 R11|R11E      (`A|B`: alternative spellings of one idiom; together they must fire at least once)
   sig: <replacement signature up to (not including) the body>      (only for documented drops)
   requires:
       [label] expr
@@ -23,7 +23,14 @@ Template directives (see DESIGN.md 3.2/3.3):
   hint <where>:
       verus statements
   @*/
-  where <where> is one of: start | end | loop K before | loop K start | loop K end | loop K after | before `text` [#n|#*] | after `text` [#n|#*]   (#* = every occurrence, at least one)
+  where <where> is one of: start | end | loop K before | loop K start | loop K end | loop K after | loop K continue
+  | [in loop K] before|after [stmt] `text` [#n|#*]   (#* = every occurrence, at least one)
+    loop K continue : before every unlabelled `continue` whose innermost loop is loop K (none = nothing to say)
+    in loop K       : the text is looked for (and counted) inside the body of loop K only
+    stmt            : before / after the whole STATEMENT that contains the text - the statement of the top level of
+                      the scope (the fn body, or the body of loop K with `in loop K`), whatever it binds or tests
+  `$guard(K)` in a loop clause or a hint stands for `(COND)` of the `if COND {` whose block is the innermost block around
+  loop K: the decision whether loop K runs, whatever temporaries it is computed from (see guard_of).
 
   /*@fnrange FILE :: IMPL-HEADER-or-"-" :: NAME          a contiguous range of top-level statements of fn NAME
   from: `text the first statement of the range starts with`
@@ -637,6 +644,108 @@ def parse_fn_directive(text):
     return d
 
 
+
+def stmt_span(body, lo, hi, pos, mask=None):
+    """(start, end) of the statement of the block body[lo:hi] (the text between a block's braces) that contains
+    offset `pos`.  As in the Rust grammar: a statement that starts with a block-like expression (`if`, `match`, `while`,
+    `for`, `loop`, `unsafe`, a label or `{`) ends with its closing `}` at the block's bracket depth unless `else`
+    follows; every other statement (`let`, assignment, call, `return` ..) ends with the next `;` at that depth.
+    end is exclusive and includes the statement's own `;`."""
+    if mask is None:
+        mask = code_mask(body)
+    starts, ends = [], []
+    depth, want, k = 0, True, lo
+    block_like = False
+    while k < hi:
+        c = body[k]
+        if want and depth == 0 and mask[k] and c not in ' \t\r\n':
+            starts.append(k)
+            want = False
+            block_like = re.match(r"(if|match|while|for|loop|unsafe)\b|\{|'[A-Za-z_][A-Za-z0-9_]*\s*:", body[k:k + 40]) is not None
+        if mask[k]:
+            if c in OPEN:
+                depth += 1
+            elif c in CLOSE:
+                depth -= 1
+                if depth == 0 and c == '}' and not want and block_like:
+                    if not re.match(r'\s*else\b', body[k + 1:hi][:200]):
+                        ends.append(k + 1)
+                        want = True
+            elif c == ';' and depth == 0 and not want:
+                ends.append(k + 1)
+                want = True
+        k += 1
+    if len(ends) < len(starts):
+        ends.append(hi)     # tail expression
+    for a, b in zip(starts, ends):
+        if a <= pos < b:
+            return a, b
+    raise LostAnchor('no statement at offset %d' % pos)
+
+
+def continues_of(body, heads, k):
+    """offsets of every unlabelled `continue` whose innermost enclosing loop is the k-th loop (1-based)."""
+    mask = code_mask(body)
+    kw, ob, cb = heads[k - 1]
+    out = []
+    for m in re.finditer(r'(?<![A-Za-z0-9_])continue(?![A-Za-z0-9_])', body):
+        p = m.start()
+        if not mask[p] or not (ob < p < cb):
+            continue
+        if re.match(r"\s*'", body[m.end():]):
+            continue        # labelled: names its loop itself
+        inner = [h for h in heads if h[1] < p < h[2]]
+        if min(inner, key=lambda h: h[2] - h[1]) == heads[k - 1]:
+            out.append(p)
+    return out
+
+
+def guard_of(body, heads, k):
+    """The condition text COND of the `if COND {` whose block is the innermost block around the k-th loop (1-based): what
+    decides whether the loop runs at all.  `$guard(k)` in a clause or hint stands for `(COND)`, so that a contract can
+    speak about that decision without naming the temporaries it is computed from.  Anything else around the loop (`else`
+    branch, `if let`, `match` arm, a condition with braces) is a LostAnchor."""
+    mask = code_mask(body)
+    if k > len(heads):
+        raise LostAnchor('$guard(%d): loop %d missing' % (k, k))
+    kw = heads[k - 1][0]
+    depth, j = 0, kw - 1
+    while j >= 0:
+        if mask[j]:
+            if body[j] in CLOSE:
+                depth += 1
+            elif body[j] in OPEN:
+                if depth == 0:
+                    break
+                depth -= 1
+        j -= 1
+    if j < 0 or body[j] != '{':
+        raise LostAnchor('$guard(%d): the loop is not inside a block' % k)
+    # the block's header: back to the previous `;`, `{` or `}` at this level
+    h = j - 1
+    depth = 0
+    while h >= 0:
+        if mask[h]:
+            c = body[h]
+            if c in ')]':
+                depth += 1
+            elif c in '([':
+                depth -= 1
+            elif depth == 0 and c in ';{}':
+                break
+        h -= 1
+    header = body[h + 1:j].strip()
+    m = re.match(r'if\s+(?!let\b)(.+)$', header, re.S)
+    # (`else if COND {` / `else {`: the header then starts with `else`; a condition with braces cuts the header short)
+    if not m:
+        raise LostAnchor('$guard(%d): the block around the loop is not the then-branch of a plain `if COND` (found `%s`)' % (k, norm_ws(header)[:60]))
+    return norm_ws(m.group(1))
+
+
+def subst_guards(text, body, heads):
+    return re.sub(r'\$guard\((\d+)\)', lambda m: '(' + guard_of(body, heads, int(m.group(1))) + ')', text)
+
+
 def apply_hints(body, hints):
     """Insert hint text at structural / textual anchors. Insertions are computed on the original
     body and applied back to front so indices stay valid."""
@@ -661,34 +770,70 @@ def apply_hints(body, hints):
                 ins.append((cb + 1, '\n' + text + '\n'))
             else:
                 ins.append((ob + 1, '\n' + text + '\n') if m.group(2) == 'start' else (cb, '\n' + text + '\n'))
+        elif re.match(r'loop\s+(\d+)\s+continue$', where):
+            # before every `continue` of loop K; in expression position (`None => continue,`) the keyword is wrapped
+            # into a block so that the hint is a statement
+            if heads is None:
+                heads = loop_heads(body)
+            k = int(re.match(r'loop\s+(\d+)', where).group(1))
+            if k > len(heads):
+                raise LostAnchor('hint anchor: loop %d missing' % k)
+            for p in continues_of(body, heads, k):
+                q = p - 1
+                while q >= 0 and body[q] in ' \t\r\n':
+                    q -= 1
+                if q >= 0 and body[q] in '{;}':
+                    ins.append((p, '\n' + text + '\n'))
+                else:
+                    ins.append((p, '{\n' + text + '\n'))
+                    ins.append((p + len('continue'), ' }'))
         else:
-            m = re.match(r'(before|after|at)\s+`(.*)`(?:\s+#(\d+|\*))?$', where, re.S)
+            m = re.match(r'(?:in\s+loop\s+(\d+)\s+)?(before|after|at)\s+(stmt\s+)?`(.*)`(?:\s+#(\d+|\*))?$', where, re.S)
             if not m:
                 raise SystemExit('template error: bad hint anchor: ' + where)
-            if m.group(1) == 'at':
-                idx = nth_occurrence(body, m.group(2), int(m.group(3) or 1) if m.group(3) != '*' else 1, 'at')
-                ins.append((idx + len(m.group(2)), ' ' + text + ' '))
+            scope_k, side, is_stmt, lit, nth = m.group(1), m.group(2), bool(m.group(3)), m.group(4), m.group(5)
+            lo, hi = 0, len(body)
+            if scope_k:
+                if heads is None:
+                    heads = loop_heads(body)
+                if int(scope_k) > len(heads):
+                    raise LostAnchor('hint anchor: loop %s missing' % scope_k)
+                _, ob, cb = heads[int(scope_k) - 1]
+                lo, hi = ob + 1, cb
+            what = side + (' stmt' if is_stmt else '') + (' (in loop %s)' % scope_k if scope_k else '')
+
+            def place(idx):
+                if is_stmt:
+                    a, b = stmt_span(body, lo, hi, idx)
+                    return a if side == 'before' else b
+                return idx if side == 'before' else idx + len(lit)
+
+            def nth_in_scope(n):
+                return lo + nth_occurrence(body[lo:hi], lit, n, what)
+
+            if side == 'at':
+                # `check [label] at `text`:` - a marker on the line of the anchor, nothing else inserted
+                idx = nth_in_scope(int(nth) if nth and nth != '*' else 1)
+                ins.append((idx + len(lit), ' ' + text + ' '))
                 continue
-            if m.group(3) == '*':
+            if nth == '*':
                 # EVERY occurrence (at least one): an obligation stated at each exit of a kind, so that an exit
                 # added later carries it too
-                k = 1
+                k, seen = 1, set()
                 while True:
                     try:
-                        idx = nth_occurrence(body, m.group(2), k, m.group(1))
+                        idx = nth_in_scope(k)
                     except LostAnchor:
                         if k == 1:
                             raise
                         break
-                    if m.group(1) == 'after':
-                        idx += len(m.group(2))
-                    ins.append((idx, '\n' + text + '\n'))
+                    at = place(idx)
+                    if at not in seen:
+                        seen.add(at)
+                        ins.append((at, '\n' + text + '\n'))
                     k += 1
                 continue
-            idx = nth_occurrence(body, m.group(2), int(m.group(3) or 1), m.group(1))
-            if m.group(1) == 'after':
-                idx += len(m.group(2))
-            ins.append((idx, '\n' + text + '\n'))
+            ins.append((place(nth_in_scope(int(nth or 1))), '\n' + text + '\n'))
     for idx, text in sorted(ins, key=lambda t: -t[0]):
         body = body[:idx] + text + body[idx:]
     return body
@@ -761,6 +906,8 @@ def build_function(repo, d, unit, em, report, vac=False, stub_of=None):
         body, n = fn(body, ctx)
         if n:
             fired[r] = fired.get(r, 0) + n
+    # always-on normalisations: spellings Verus does not take, rewritten into the equivalent one it does (0 or more times)
+    body = R.norm_bool_op_assign(body, fired)
     for r in d['rules']:
         # `RULE?`: the idiom is desugared IF PRESENT.  Only for rules that re-spell an expression without dropping or
         # assuming anything: when such a rule does not fire the text reaches Verus verbatim, which either accepts it
@@ -768,15 +915,20 @@ def build_function(repo, d, unit, em, report, vac=False, stub_of=None):
         # instead of being lost as an anchor.  Shape guards stay with `nloops:` and the must-fire rules.
         optional = r.endswith('?')
         r = r.rstrip('?')
-        fn = find_rule(r)
-        if fn is None:
-            raise SystemExit('template error: unknown rule ' + r)
-        body, n = fn(body, ctx)
-        if n == 0:
+        # `A|B`: alternative spellings of one idiom, each with its own rule; together they must fire at least once
+        total = 0
+        for name in r.split('|'):
+            fn = find_rule(name)
+            if fn is None:
+                raise SystemExit('template error: unknown rule ' + name)
+            body, n = fn(body, ctx)
+            if n:
+                fired[name] = fired.get(name, 0) + n
+            total += n
+        if total == 0:
             if optional:
                 continue
             raise LostAnchor('rule %s expected in %s::%s did not match' % (r, d['file'], d['name']))
-        fired[r] = fired.get(r, 0) + n
     head, params, ret, where = ctx['head'], ctx['params'], ctx['ret'], ctx['where']
     # callmap: a call path that resolves to a trait impl in /repo is redirected to the inherent copy
     # of that same impl method extracted in this unit (trait impls are verified as inherent methods)
@@ -818,7 +970,17 @@ def build_function(repo, d, unit, em, report, vac=False, stub_of=None):
     for k in d['loops']:
         if k > len(heads):
             raise LostAnchor('%s: loop %d missing (shape changed)' % (oblig, k))
-    body = apply_hints(body, d['hints'])
+    # `$guard(k)` in loop clauses and hints: the condition of the `if` that decides whether loop k runs (read off the
+    # code as it is before the hints go in)
+    hints = [(w, subst_guards(t, body, heads)) for w, t in d['hints']]
+    loops_spec = {}
+    for k, lp in d['loops'].items():
+        loops_spec[k] = dict(lp)
+        for kind in ('invariant_except_break', 'invariant', 'ensures'):
+            loops_spec[k][kind] = [(lab, subst_guards(e, body, heads)) for lab, e in lp[kind]]
+        if lp['decreases']:
+            loops_spec[k]['decreases'] = subst_guards(lp['decreases'], body, heads)
+    body = apply_hints(body, hints)
     heads = loop_heads(body)  # recompute after insertion (hints contain no loops by convention)
     def emit_fn(vac_copy):
         # ---- emit
@@ -858,7 +1020,7 @@ def build_function(repo, d, unit, em, report, vac=False, stub_of=None):
         pieces.append((body[pos:], None))
         for text, k in pieces:
             if text == 'LOOPSPEC':
-                lp = d['loops'][k]
+                lp = loops_spec[k]
                 em.emit('')
                 for kind in ('invariant_except_break', 'invariant', 'ensures'):
                     if lp[kind]:
